@@ -11,8 +11,52 @@ from zsa import core, facts  # noqa: E402
 from zsa.rules import inventory as INV  # noqa: E402
 
 
+def freeze_locals():
+    """tables/locals.json: per function body, structural name of each local -> the label the rules use for it
+    (= the source's spelling on the tree the rules were written against)."""
+    os.environ["ZSA_RAW_NAMES"] = "1"
+    from zsa import hq
+    cfgs = list(facts.CONFIGS)
+    crates, h, n = facts.load(cfgs)
+    out, conflicts = {}, []
+    for (cname, tag), cr in sorted(crates.items()):
+        for path, b in cr.hir.items():
+            if b.get("body") is None:
+                continue
+            names = hq.structural_names(b)
+            src = {}
+
+            def rec(x):
+                if isinstance(x, dict):
+                    if x.get("k") == "Bind" and "lid" in x:
+                        src[x["lid"]] = x["name"]
+                    for v in x.values():
+                        rec(v)
+                elif isinstance(x, list):
+                    for v in x:
+                        rec(v)
+            rec(b.get("params"))
+            rec(b.get("body"))
+            t = out.setdefault(path, {})
+            for lid, c in names.items():
+                if c == "self" or lid not in src:
+                    continue
+                if c in t and t[c] != src[lid]:
+                    conflicts.append((path, c, t[c], src[lid], tag))
+                    continue
+                t[c] = src[lid]
+    out = {k: v for k, v in out.items() if v}
+    p = os.path.join(HERE, "tables", "locals.json")
+    json.dump(out, open(p, "w"), indent=0, sort_keys=True)
+    print("wrote", p, len(out), "bodies,", sum(len(v) for v in out.values()), "locals,", len(conflicts), "conflicts")
+    for c in conflicts[:20]:
+        print("  conflict", c)
+
+
 def main():
     which = sys.argv[1]
+    if which == "locals":
+        return freeze_locals()
     mod = __import__("zsa.props.%s" % which, fromlist=["x"])
     cfgs = list(mod.FREEZE_CONFIGS)
     crates, h, n = facts.load(cfgs)
